@@ -4,7 +4,7 @@
 From Coq Require Import List Arith NArith ZArith Bool String.
 From Coq.Strings Require Import Byte.
 From Peppi Require Import Base.Bytes Base.Outcome Gen.Funs Model.Ubjson Model.Start Model.Parse Model.Reader Model.Writer Model.Recorder
-  Model.Frag Proofs.TableFacts Proofs.ReadProof Proofs.Corollaries Proofs.FragProof.
+  Model.Frag Model.FragSkip Proofs.TableFacts Proofs.ReadProof Proofs.Corollaries Proofs.FragProof Proofs.FragSkipProof.
 Import ListNotations.
 
 (* for every well-formed replay, with or without skip-frames (skip needs a finished replay): the read consumes the
@@ -29,6 +29,35 @@ Theorem C11_digest_any_fragmentation : forall data sched g rest,
   exists used, data = used ++ rest /\ hr_hashed h' = Some used /\ g_hashed g = Some (List.length used).
 Proof. exact slp_read_frag_digest. Qed.
 
+(* the same for the skip-frames read (io::copy(take(skip)) when hashing: every copied byte goes through the hasher, the
+   copy stops silently at end of data; seek when not hashing, which disables the hasher) *)
+Theorem C11_digest_any_fragmentation_skip : forall data sched g rest,
+  no_fault sched ->
+  slp_read {| o_skip := true; o_hash := true |} data = Ok (g, rest) ->
+  let '(res, h') := run_frag2 (p_slp_read_skip true (List.length data)) (mk_hreader data sched (Some [])) in
+  res = Ok g /\ fs_data (hr_inner h') = rest /\
+  exists used, data = used ++ rest /\ hr_hashed h' = Some used /\ g_hashed g = Some (List.length used).
+Proof. exact slp_read_skip_frag_digest. Qed.
+Theorem C11_skip_program_is_reader : forall hash bs0,
+  run_flat2 (p_slp_read_skip hash (List.length bs0)) bs0 = slp_read {| o_skip := true; o_hash := hash |} bs0.
+Proof. exact run_flat2_slp_read_skip. Qed.
+
+(* end to end: EVERY well-formed file, delivered under ANY fault-free schedule: the hasher is fed exactly the file *)
+Theorem C11_wellformed_full : forall r st sched,
+  wf_replay r = true -> game_start (r_start r) = ROk st -> no_fault sched ->
+  let data := emit r in
+  let '(res, h') := run_frag (p_slp_read true (List.length data)) (mk_hreader data sched (Some [])) in
+  res = Ok (game_of {| o_skip := false; o_hash := true |} r st (end_of r)) /\
+  fs_data (hr_inner h') = [] /\ hr_hashed h' = Some data.
+Proof. exact read_full_frag. Qed.
+Theorem C11_wellformed_skip : forall r st sched,
+  wf_replay r = true -> game_start (r_start r) = ROk st -> finished r = true -> no_fault sched ->
+  let data := emit r in
+  let '(res, h') := run_frag2 (p_slp_read_skip true (List.length data)) (mk_hreader data sched (Some [])) in
+  res = Ok (game_of {| o_skip := true; o_hash := true |} r st (end_of r)) /\
+  fs_data (hr_inner h') = [] /\ hr_hashed h' = Some data.
+Proof. exact read_skipping_frag. Qed.
+
 (* two schedules: same result, same remaining data, same hashed bytes -- for any program of exact reads *)
 Theorem C11_schedule_independent : forall (A : Type) (p : prog A) data s1 s2 hashed0,
   no_fault s1 -> no_fault s2 ->
@@ -46,3 +75,7 @@ Print Assumptions C11_hash_covers_file.
 Print Assumptions C11_digest_any_fragmentation.
 Print Assumptions C11_schedule_independent.
 Print Assumptions C11_program_is_reader.
+Print Assumptions C11_digest_any_fragmentation_skip.
+Print Assumptions C11_skip_program_is_reader.
+Print Assumptions C11_wellformed_full.
+Print Assumptions C11_wellformed_skip.
